@@ -4,7 +4,7 @@ from .opcheck import OperatorCheck
 class C05(OperatorCheck):
     id = "C05"
     cfgs = ("c",)
-    maxn = 3
+    maxn = {"quick": 3, "thorough": 4}
     b3 = {
         "quick": [("L3", 3, 1, ("T21", 0))],
         "thorough": [("L3", 4, 1, ("T21", 0)), ("L3T", 3, 1, (2, 2)), ("L3PLUS", 3, 1, (2, 2))],
